@@ -4,7 +4,7 @@ SHELL := /bin/bash
 COQ_TIMEOUT ?= 1800
 J ?= 12
 
-.PHONY: setup all gen coq extract driver clean prectable onlinegen offlinegen offlinegen-check offlinegen-mutants denseonlinegen denseonlinegen-check denseonlinegen-mutants pastifiergen pastifiergen-check pastifiergen-mutants explainergen explainergen-check explainergen-mutants denseofflinegen denseofflinegen-check denseofflinegen-mutants mergegen mergegen-check mergegen-mutants unitsgen unitsgen-check unitsgen-mutants parservisitorgen parservisitorgen-check parservisitorgen-mutants onlinevisitorgen onlinevisitorgen-check onlinevisitorgen-mutants coqchk coqchk-float static
+.PHONY: setup all gen coq extract driver clean prectable onlinegen offlinegen offlinegen-check offlinegen-mutants denseonlinegen denseonlinegen-check denseonlinegen-mutants pastifiergen pastifiergen-check pastifiergen-mutants explainergen explainergen-check explainergen-mutants denseofflinegen denseofflinegen-check denseofflinegen-mutants mergegen mergegen-check mergegen-mutants unitsgen unitsgen-check unitsgen-mutants parservisitorgen parservisitorgen-check parservisitorgen-mutants onlinevisitorgen onlinevisitorgen-check onlinevisitorgen-mutants shellgen shellgen-check shellgen-mutants denseonlinevisitorgen denseonlinevisitorgen-check denseonlinevisitorgen-mutants coqchk coqchk-float static
 
 # `make all` never stops at the first failure: a source file of nickovic/rtamt that a translator refuses, or a proof that no longer
 # checks against the regenerated text, must break the obligations of the properties that depend on it and of no other property.
@@ -18,7 +18,7 @@ all:
 	@($(MAKE) coq > build/status/coq.log 2>&1 && echo ok > build/status/coq) || (tail -40 build/status/coq.log > build/status/coq; true)
 	@($(MAKE) driver > build/status/driver.log 2>&1 && echo ok > build/status/driver) || (tail -40 build/status/driver.log > build/status/driver; true)
 	@grep -v "^COQC\|^COQDEP\|Closed under the global context\|^make" build/status/coq.log | tail -5; true
-	@for f in prectable offlinegen onlinegen denseonlinegen pastifiergen explainergen denseofflinegen mergegen unitsgen parservisitorgen onlinevisitorgen coq driver; do if [ "`head -c 2 build/status/$$f`" != "ok" ]; then echo "make all: step $$f failed (build/status/$$f)"; fail=1; fi; done; test -z "$$fail"
+	@for f in prectable offlinegen onlinegen denseonlinegen pastifiergen explainergen denseofflinegen mergegen unitsgen parservisitorgen onlinevisitorgen shellgen denseonlinevisitorgen coq driver; do if [ "`head -c 2 build/status/$$f`" != "ok" ]; then echo "make all: step $$f failed (build/status/$$f)"; fail=1; fi; done; test -z "$$fail"
 
 coq/Makefile.coq: coq/_CoqProject
 	cd coq && coq_makefile -f _CoqProject -o Makefile.coq
@@ -38,6 +38,8 @@ gen:
 	@($(MAKE) -s unitsgen > build/status/unitsgen.log 2>&1 && echo ok > build/status/unitsgen) || (tail -20 build/status/unitsgen.log > build/status/unitsgen; true)
 	@($(MAKE) -s parservisitorgen > build/status/parservisitorgen.log 2>&1 && echo ok > build/status/parservisitorgen) || (tail -20 build/status/parservisitorgen.log > build/status/parservisitorgen; true)
 	@($(MAKE) -s onlinevisitorgen > build/status/onlinevisitorgen.log 2>&1 && echo ok > build/status/onlinevisitorgen) || (tail -20 build/status/onlinevisitorgen.log > build/status/onlinevisitorgen; true)
+	@($(MAKE) -s shellgen > build/status/shellgen.log 2>&1 && echo ok > build/status/shellgen) || (tail -20 build/status/shellgen.log > build/status/shellgen; true)
+	@($(MAKE) -s denseonlinevisitorgen > build/status/denseonlinevisitorgen.log 2>&1 && echo ok > build/status/denseonlinevisitorgen) || (tail -20 build/status/denseonlinevisitorgen.log > build/status/denseonlinevisitorgen; true)
 
 # the AST-building methods of the parser visitors (rtamt/syntax/ast/parser/{ltl,stl}/parser_visitor.py: visitExprX, visitInterval, the two
 # intervalTime methods, str_to_op_type) are re-translated on every build (tools/py2coq_parservisitor.py, fail-closed: an unsupported construct,
@@ -57,6 +59,24 @@ parservisitorgen-check: coq
 # semantic mutations + harmless rewrites of scratch copies of the two source files: translator verdict / first lemma that fails
 parservisitorgen-mutants: coq
 	python3 tools/parservisitorgen_mutants.py
+
+# the glue of the discrete-time offline interpreter (AbstractDiscreteTimeOfflineInterpreter.evaluate, set_variable_to_ast_from_dataset,
+# AbstractAstVisitor.visitAst) and get_value (AbstractAst, AbstractSpecification) are re-translated on every build (tools/py2coq_shell.py,
+# fail-closed; exist_ast, gap, update_sampling_violation_counter, create_var_from_name, AbstractAstVisitor.visit are pinned by digest);
+# ShellGenCorrect.v re-proves that the generated evaluate / get_value are Offline.evaluate / Offline.eval_off on the forest (C12_generated_get_offline)
+shellgen:
+	@mkdir -p build
+	python3 tools/py2coq_shell.py $(REPO) build/ShellGen.v.new
+	@cmp -s build/ShellGen.v.new coq/theories/ShellGen.v || cp build/ShellGen.v.new coq/theories/ShellGen.v
+
+# differential check of the generated definitions against rtamt's public API on random modular specifications (not part of `all`: ~1 min)
+shellgen-check: coq
+	PYTHONDONTWRITEBYTECODE=1 PYTHONPATH=$(REPO) /venv/bin/python harness/shellgen_check.py --n 1500 build/ShellGenCases.v
+	cd coq && timeout 1800 coqc -Q theories RV ../build/ShellGenCases.v
+
+# semantic mutations + harmless rewrites of scratch copies of the sources: translator verdict / first lemma that fails
+shellgen-mutants: coq
+	python3 tools/shellgen_mutants.py
 
 # the precedence table of the parser model is regenerated from rtamt's generated ANTLR parser on every build
 prectable:
@@ -144,6 +164,25 @@ onlinevisitorgen:
 	@mkdir -p build
 	python3 tools/py2coq_onlinevisitor.py $(REPO) build/OnlineVisitorGen.v.new coq/theories/OnlineGen.v
 	@cmp -s build/OnlineVisitorGen.v.new coq/theories/OnlineVisitorGen.v || cp build/OnlineVisitorGen.v.new coq/theories/OnlineVisitorGen.v
+
+# the construction visitor and the update visitor of the DENSE-time online interpreter (rtamt/semantics/stl/dense_time/online/ast_visitor.py,
+# abstract_online_interpreter.py, abstract_dense_time_online_interpreter.py) are re-translated on every build, after denseonlinegen (the
+# signatures of the operation classes are read from DenseOnlineGen.v); fail-closed as above: C05 is then reported as no longer shown.
+# DenseOnlineVisitorGenCorrect.v re-proves against the new text that every node class gets the operation class and the update that the hand
+# model DenseOnlineMon.v assumes (on its tz instance), and the rejections of Support.supported DenseOn (C05_generated_monitor)
+denseonlinevisitorgen:
+	@mkdir -p build
+	python3 tools/py2coq_denseonlinevisitor.py $(REPO) build/DenseOnlineVisitorGen.v.new coq/theories/DenseOnlineGen.v
+	@cmp -s build/DenseOnlineVisitorGen.v.new coq/theories/DenseOnlineVisitorGen.v || cp build/DenseOnlineVisitorGen.v.new coq/theories/DenseOnlineVisitorGen.v
+
+# differential check of the generated dense-time visitors against the Python interpreter on random specifications and batches (not part of `all`: ~3 min)
+denseonlinevisitorgen-check: coq
+	PYTHONDONTWRITEBYTECODE=1 PYTHONPATH=$(REPO) /venv/bin/python harness/denseonlinevisitorgen_check.py --n 3000 build/DenseOnlineVisitorGenCases.v
+	cd coq && timeout 3000 coqc -Q theories RV ../build/DenseOnlineVisitorGenCases.v
+
+# semantic mutations + harmless rewrites + fail-closed probes on scratch copies of the three source files: translator verdict / first lemma that fails
+denseonlinevisitorgen-mutants: coq
+	python3 tools/denseonlinevisitorgen_mutants.py
 
 # differential check of the generated visitors against the Python interpreter on random specifications and data (not part of `all`: ~3 min)
 onlinevisitorgen-check: coq
